@@ -605,6 +605,26 @@ class EnvSim:
                             "u": self._gen_draws(fl, swarm, None)}
         op = {"op": "step", "a": [k[0], list(k[1]), k[2]], "enc": enc,
               "u": self._gen_draws(fl, swarm, a)}
+        if "C13" in self.props and fl.random() < 0.3:
+            # planner pattern: look two steps ahead from the current state
+            # (a productive action, then an action from the resulting
+            # hypothetical state), then try that second action for real
+            k1 = self._productive(wl, status)
+            if k1 is not None:
+                a1 = self._act_of_key(k1)
+                st2, _ = model.apply_success(self.cfg, status, a1)
+                k2 = self._productive(wl, st2) or k
+                a2 = self._act_of_key(k2)
+                sid = self.next_sid
+                self.next_sid += 1
+                op["interpose"] = [
+                    {"src": "cur", "a": [k1[0], list(k1[1]), k1[2]],
+                     "u": [float(0.0).hex()] * 3, "sid": sid},
+                    {"src": sid, "a": [k2[0], list(k2[1]), k2[2]],
+                     "u": [float(0.0).hex()] * 3}]
+                op["a"] = [k2[0], list(k2[1]), k2[2]]
+                op["u"] = self._gen_draws(fl, swarm, a2)
+                return op
         if "C13" in self.props and self.state_sids and fl.random() < 0.4:
             # look-ahead on other states between the companion generative
             # step and the real step
